@@ -75,6 +75,7 @@ def bar_times(case):
 class Obs:
     """observer interface of the scripted strategy (all optional)"""
 
+    def on_built(self, u): ...  # frames exist, nothing has been handed to the Actuator yet
     def phase_start(self, u, phase, snap): ...
     def op_done(self, u, phase, op, outcome): ...
     def phase_end(self, u, phase, snap): ...
@@ -84,7 +85,7 @@ class Obs:
 
 
 class Universe:
-    def __init__(self, case, observers=(), actuator=True):
+    def __init__(self, case, observers=(), actuator=True, frames=None, price_frame=None):
         from demeter import Actuator, Broker, MarketInfo, MarketTypeEnum, TokenInfo
 
         self.case = case
@@ -105,10 +106,16 @@ class Universe:
         self.prices = None
         self.eth = [D(x) for x in case["eth"]]
         self.osq = [D(x) for x in case["osq"]]
+        self._given = frames or {}  # re-use supplied frame objects (a second run on the very same inputs)
         self._build_markets()
-        self._build_prices()
+        if price_frame is not None:
+            self.price_frame = price_frame
+        else:
+            self._build_prices()
         for t, a in case["wallet"].items():
             self.broker.set_balance(self.tok[t], D(a))
+        for o in self.obs:
+            o.on_built(self)
         if actuator:
             a = self.actuator
             if case["quote"] == "USD":
@@ -143,7 +150,7 @@ class Universe:
             pool = UniV3Pool(t0, t1, float(u["fee"]), T[u["quote"]])
             mk = UniLpMarket(MarketInfo("uni"), pool)
             ticks = self._uni_ticks(pool, u["noise"])
-            mk.data = world.uni_frame(pool, self.start, ticks, [int(x) for x in u["liqs"]], [int(x) for x in u["in0"]], [int(x) for x in u["in1"]])
+            mk.data = self._given["uni"] if "uni" in self._given else world.uni_frame(pool, self.start, ticks, [int(x) for x in u["liqs"]], [int(x) for x in u["in0"]], [int(x) for x in u["in1"]])
             pre["uni"] = mk
             if c.get("consistent"):
                 usdc = D(c["usdc"])
@@ -153,7 +160,7 @@ class Universe:
             pool = UniV3Pool(T["WETH"], T["OSQTH"], 0.3, T["WETH"])
             pm = UniLpMarket(MarketInfo("squni"), pool)
             ticks = [int(round(-math.log(float(o)) / LOG1)) + d for o, d in zip(c["osq"], s["noise"])]
-            pm.data = world.uni_frame(pool, self.start, ticks, [int(x) for x in s["liqs"]], [int(x) for x in s["in0"]], [int(x) for x in s["in1"]])
+            pm.data = self._given["squni"] if "squni" in self._given else world.uni_frame(pool, self.start, ticks, [int(x) for x in s["liqs"]], [int(x) for x in s["in0"]], [int(x) for x in s["in1"]])
             pre["squni"] = pm
             if c.get("consistent"):
                 self.osq = list(pm.data["price"])
@@ -165,7 +172,7 @@ class Universe:
                 pm = pre["squni"]
                 self._add("squni", pm)
                 sm = SqueethMarket(MarketInfo("sq", MarketTypeEnum.squeeth), pm)
-                sm.data = pd.DataFrame({"norm_factor": pd.Series([D(x) for x in s["nf"]], index=self.idx, dtype=object), "WETH": pd.Series(list(self.eth), index=self.idx, dtype=object), "OSQTH": pd.Series(list(self.osq), index=self.idx, dtype=object)}, index=self.idx)
+                sm.data = self._given["sq"] if "sq" in self._given else pd.DataFrame({"norm_factor": pd.Series([D(x) for x in s["nf"]], index=self.idx, dtype=object), "WETH": pd.Series(list(self.eth), index=self.idx, dtype=object), "OSQTH": pd.Series(list(self.osq), index=self.idx, dtype=object)}, index=self.idx)
                 self._add("sq", sm)
             elif key == "aave":
                 from vf import aave as aw
@@ -174,26 +181,29 @@ class Universe:
                 toks = [T[t["name"]] for t in a["tokens"]]
                 am = AaveV3Market(MarketInfo("aave", MarketTypeEnum.aave_v3), aw.risk_file(a["tokens"]), toks)
                 cols, data = [], {}
-                for t in a["tokens"]:
+                for t in a["tokens"] if "aave" not in self._given else []:
                     nme = t["name"]
                     vals = {"liquidity_rate": [D(a["lr"][nme])] * self.n, "stable_borrow_rate": [D(a["br"][nme])] * self.n, "variable_borrow_rate": [D(a["br"][nme])] * self.n,
                             "liquidity_index": [D(x) for x in a["li"][nme]], "variable_borrow_index": [D(x) for x in a["bi"][nme]]}
                     for col in AAVE_COLS:
                         data[(nme, col)] = pd.Series(vals[col], index=self.idx, dtype=object)
-                am.data = pd.DataFrame(data, index=self.idx)
-                am.data.columns = pd.MultiIndex.from_tuples(list(data.keys()))
+                if "aave" in self._given:
+                    am.data = self._given["aave"]
+                else:
+                    am.data = pd.DataFrame(data, index=self.idx)
+                    am.data.columns = pd.MultiIndex.from_tuples(list(data.keys()))
                 self._add("aave", am)
             elif key == "opt":
-                om = DeribitOptionMarket(MarketInfo("opt", MarketTypeEnum.deribit_option), DeribitOptionMarket.ETH, data=self._opt_frame())
+                om = DeribitOptionMarket(MarketInfo("opt", MarketTypeEnum.deribit_option), DeribitOptionMarket.ETH, data=self._given["opt"] if "opt" in self._given else self._opt_frame())
                 self._add("opt", om)
             elif key == "glp":
                 g = c["glp"]
                 gt = [T[x.upper()] for x in g["tokens"]]
                 gm = GmxMarket(MarketInfo("glp", MarketTypeEnum.gmx_v1), tokens=gt)
-                gm.data = self._glp_frame()
+                gm.data = self._given["glp"] if "glp" in self._given else self._glp_frame()
                 self._add("glp", gm)
             elif key == "gm":
-                gm2 = GmxV2Market(MarketInfo("gm", MarketTypeEnum.gmx_v2), GmxV2Pool(T["WETH"], T["USDC"], T["WETH"]), data=self._gm_frame())
+                gm2 = GmxV2Market(MarketInfo("gm", MarketTypeEnum.gmx_v2), GmxV2Pool(T["WETH"], T["USDC"], T["WETH"]), data=self._given["gm"] if "gm" in self._given else self._gm_frame())
                 self._add("gm", gm2)
             else:
                 raise ValueError(key)
